@@ -61,7 +61,7 @@ func (k Keeper) Open(ctx sdk.Context, msg *types.MsgOpen) (*types.MsgOpenRespons
 	}
 
 	// check if existing mtp to consolidate
-	existingMtp := k.CheckSameAssetPosition(ctx, msg)
+	existingMtp := k.CheckSameAssetPositionInPool(ctx, msg)
 
 	if existingMtp == nil {
 		// opening new position
